@@ -242,10 +242,12 @@ pub fn voicing_switches(ctx: &mut Ctx) {
         };
         let y = render(voc, &c);
         let e = render(Vocoder::new(order, 0, 0, false, rate, alpha, 0.0, 1.0, p), &vec![0.0; order]);
-        let peak = y.iter().skip(2 * p).fold(0.0f64, |m, x| m.max(x.abs()));
+        // (from the second frame on: the first frame glides from the plain to the postfiltered
+        // coefficients, and its pulse response has died away before the second frame ends)
+        let peak = y.iter().skip(p).fold(0.0f64, |m, x| m.max(x.abs()));
         let mut worst = 0.0f64;
         let mut at = 0;
-        for n in 2 * p..y.len() {
+        for n in p..y.len() {
             let mut want = 0.0;
             for (k, hk) in h.iter().enumerate() {
                 want += hk * e[n - k];
@@ -257,7 +259,7 @@ pub fn voicing_switches(ctx: &mut Ctx) {
             }
         }
         ctx.max("voicing_switch_worst_relative_deviation", worst / peak.max(1e-300));
-        ctx.count("voicing_switch_frames_compared", (lf0.len() - 2) as f64);
+        ctx.count("voicing_switch_frames_compared", (lf0.len() - 1) as f64);
         if !(worst <= 1e-6 * peak) {
             ctx.violation(
                 "filter-depends-on-voicing",
